@@ -48,11 +48,11 @@ CLAIMED.update({
    technique="custom static analysis over rustc HIR: backward slicing with required roots, seed-mixing classification, loop-exit classification, dominance",
    ref="DESIGN.md §4 C10"),
  "C11": dict(category="other",
-   text=STRUCT_TXT % "every exit of the race loop is a comparison with the tracker maximum or the slot bound (a break on a per-slot result is illegitimate); the per-pair seed depends on element, occurrence count and instance seed and never on the sequence index; the index flows only into the index store; sort-before-hash in create_signature; per-element permutation reset",
+   text=STRUCT_TXT % "every exit of the race loop is a comparison with the tracker maximum or the slot bound (a break on a per-slot result is illegitimate); the per-pair seed depends on element, occurrence count and instance seed and never on the sequence index; the index flows only into the index store; sort-before-hash in create_signature; per-element permutation reset; every value hash_set returns is the store's create_signature(data)",
    technique="custom static analysis over rustc HIR: loop-exit classification, backward slicing, dominance (must-pass), paired-write matching",
    ref="DESIGN.md §4 C11"),
  "C12": dict(category="other",
-   text="Decides the property for the library's own code: no call site (resolved through generics on MIR) draws from an ambient entropy/time/address/thread/environment source outside two tabled opt-in functions; no RandomState/ThreadRng/interior-mutable state in fields or statics outside a tabled list; hasher fields and constructor parameters are BuildHasherDefault by type; no seeding site has an ambient source among its roots. Determinism of user-supplied hashers and dependency algorithms is assumed.",
+   text="Decides the property for the library's own code: no call site (resolved through generics on MIR) draws from an ambient entropy/time/address/thread/environment/thread-pool-geometry source outside two tabled opt-in functions; no RandomState/ThreadRng/interior-mutable state in fields or statics outside a tabled list; hasher fields and constructor parameters are BuildHasherDefault by type; no seeding site has an ambient source among its roots; the batch entry points are per-element delegations to the per-item entry point; HashMap-consuming entry points do not depend on iteration order; reinit/reset re-establish the constructor state. Determinism of user-supplied hashers and dependency algorithms is assumed.",
    technique="who-may-call analysis over every resolved MIR call site and item type (rustc driver), backward slicing of seeds, type-level witness",
    ref="DESIGN.md §4 C12"),
  "C13": dict(category="other",
@@ -76,7 +76,7 @@ CLAIMED.update({
    technique="custom static analysis over rustc HIR (control dependence on occupancy flags, pairing, slicing, dominating-guard rule)",
    ref="DESIGN.md §4 C08 / §8"),
  "C15": dict(category="other",
-   text="Decides ONLY structural clauses of the tracker (the inductive invariant over all update sequences is not proved): accessor shapes (maximum = root node, strict comparison), the shape of one propagation step of update (leaf written only if strictly smaller; parent m + k/2 receives max(child, sibling k ^ 1); the walk ends only at the root, when the parent equals both children, or when it would not decrease), the 2m-1 node layout, and reset == new.",
+   text="Decides ONLY structural clauses of the tracker (the inductive invariant over all update sequences is not proved): accessor shapes (maximum = root node, strict comparison), the shape of one propagation step of update (leaf written only if strictly smaller; parent m + k/2 receives max(child, sibling k ^ 1); the walk ends only at the root, when the parent equals both children, or when it would not decrease), the 2m-1 node layout, reset == new, and the empty-slot value of every MaxValue impl being the maximum of its own type.",
    technique="shape rules over rustc HIR (definitions, control dependence, loop-exit classification of the update step) and the RESET field-effect analysis",
    ref="DESIGN.md §4 C15 / §8"),
  "C17": dict(category="other",
@@ -84,7 +84,7 @@ CLAIMED.update({
    technique="who-may-write rule, field effect analysis and InitSpec comparison, counter and ordering rules over rustc HIR",
    ref="DESIGN.md §4 C17"),
  "C18": dict(category="other",
-   text="Decides the property structurally: inventory of user-written unsafe (none after the repair; Vec::from_raw_parts must transfer ownership and keep layout), and every impl of the byte-identity trait is built only from native-endian bytes of self in order (injective fixed-width concatenation).",
+   text="Decides the property structurally: inventory of user-written unsafe (none after the repair; Vec::from_raw_parts must transfer ownership and keep layout), and every impl of the byte-identity trait is built only from native-endian bytes of self in order (injective fixed-width concatenation); in the Sha variant the digest of exactly key.get_sig() seeds the generator on every path.",
    technique="unsafe inventory with ownership-transfer rule and call-whitelist classification of trait impls over rustc HIR",
    ref="DESIGN.md §4 C18"),
  "C20": dict(category="other",
